@@ -159,9 +159,15 @@ func lazySection(w *vhlib.Writer, o vhlib.Opts, rng *vhlib.Rng, rounds int) {
 		select {
 		case r = <-done:
 		case <-time.After(20 * time.Second):
-			stop()
-			w.Violation("concurrent skipmap lazy", "round did not finish within 20 s (deadlock or livelock)", map[string]interface{}{"config": c, "round": i, "seed": o.Seed})
-			return
+			dump := allStacks()
+			select {
+			case r = <-done:
+				slowRound(w, map[string]interface{}{"config": c, "round": i, "goroutines_at_20s": dump})
+			case <-time.After(40 * time.Second):
+				stop()
+				w.Violation("concurrent skipmap lazy", "round did not finish within 60 s (deadlock or livelock)", map[string]interface{}{"config": c, "round": i, "seed": o.Seed, "goroutines": allStacks(), "goroutines_at_20s": dump})
+				return
+			}
 		}
 		stop()
 		if r.crashed != "" {
@@ -169,27 +175,41 @@ func lazySection(w *vhlib.Writer, o vhlib.Opts, rng *vhlib.Rng, rounds int) {
 				map[string]interface{}{"panic": r.crashed, "config": c, "round": i, "seed": o.Seed})
 			continue
 		}
-		it := make([]string, len(r.calls))
-		var bad []lazyRec // replay hint only; the verdict is Coq's
 		nst := 0
-		for j, x := range r.calls {
-			it[j] = fmt.Sprintf("{| lz_key := %s; lz_v := %s; lz_actual := %s; lz_loaded := %s; lz_calls := %s |}",
-				vhlib.Z(x.K), vhlib.Z(x.V), vhlib.Z(x.Actual), vhlib.Bool(x.Loaded), vhlib.Nat(x.Calls))
+		for _, x := range r.calls {
 			if !x.Loaded {
 				nst++
-			}
-			if (x.Loaded && x.Calls != 0) || (!x.Loaded && (x.Calls != 1 || x.Actual != x.V)) {
-				bad = append(bad, x)
 			}
 		}
 		total += len(r.calls)
 		stored += nst
-		replay := map[string]interface{}{"config": c, "variant": mapVariants[variant], "round": i, "lazy_calls": len(r.calls), "stored": nst, "offending_calls": bad}
-		if len(bad) > 0 {
-			replay["calls"] = r.calls
+		// one case per chunk of at most 50 calls (keeps the case files small and spreads them over shards)
+		for lo := 0; lo < len(r.calls); lo += 50 {
+			hi := lo + 50
+			if hi > len(r.calls) {
+				hi = len(r.calls)
+			}
+			chunk := r.calls[lo:hi]
+			it := make([]string, len(chunk))
+			var bad []lazyRec // replay hint only; the verdict is Coq's
+			st := 0
+			for j, x := range chunk {
+				it[j] = fmt.Sprintf("lzc %s %s %s %s %s", vhlib.Z(x.K), vhlib.Z(x.V), vhlib.Z(x.Actual), vhlib.Bool(x.Loaded), vhlib.Nat(x.Calls))
+				if !x.Loaded {
+					st++
+				}
+				if (x.Loaded && x.Calls != 0) || (!x.Loaded && (x.Calls != 1 || x.Actual != x.V)) {
+					bad = append(bad, x)
+				}
+			}
+			replay := map[string]interface{}{"config": c, "variant": mapVariants[variant], "round": i, "first_call": lo,
+				"lazy_calls_in_round": len(r.calls), "stored_in_round": nst, "offending_calls": bad}
+			if len(bad) > 0 {
+				replay["calls"] = chunk
+			}
+			w.Case("LazyCalls "+vhlib.List(it), "concurrent skipmap lazy", st > 0,
+				[]string{"LoadOrStoreLazy constructor calls per call (<= 1, = 1 iff stored)"}, replay)
 		}
-		w.Case("LazyCalls "+vhlib.List(it), "concurrent skipmap lazy", nst > 0,
-			[]string{"LoadOrStoreLazy constructor calls per call (<= 1, = 1 iff stored)"}, replay)
 	}
 	w.Notes["lazy_rounds"] = rounds
 	w.Notes["lazy_calls_total"] = total
